@@ -19,7 +19,8 @@ RULE = ("enumeration: (a) every assignment of {absent, true, false, raise} "
         "worker in {obedient, stubborn} x numprocesses in {1, 2} x request "
         "in {start, restart, daemon start}, plus each start-phase hook answering "
         "None / 0 instead of False, and before_spawn / after_spawn accepting the "
-        "first worker and refusing the second; (b) before_stop/after_stop x "
+        "first worker and refusing the second (these three families also "
+        "with max_retry = -1); (b) before_stop/after_stop x "
         "outcomes x ignore x {stop, restart, rm} x worker kind; (c) "
         "before_signal/after_signal x outcomes (None and 0 included in b, c) x ignore x signal in {TERM, "
         "HUP, USR1, KILL} x {signal, kill, stop} x worker kind.  sampled: "
@@ -85,6 +86,8 @@ def build(case):
     wc = {"name": "w", "numprocesses": case["np"], "graceful_timeout": GT}
     if hooks:
         wc["hooks"] = hooks
+    if case.get("max_retry") is not None:
+        wc["max_retry"] = case["max_retry"]
     if fam == 'start' and req == 'start':
         wc["autostart"] = False
     beh = {"react": "ignore"} if case["worker"] == 'stubborn' else \
@@ -382,9 +385,19 @@ def signal_cases():
                                "request": reqname, "signum": sname}
 
 
+def start_cases_retry_forever():
+    """max_retry = -1 ("retry indefinitely") changes what a start without
+    any spawned process means - not what a refusing hook means."""
+    for gen in (start_cases_falsy, start_cases_late_veto,
+                start_cases_no_process):
+        for c in gen():
+            yield dict(c, max_retry=-1)
+
+
 def _all_cases(tier):
     return list(start_cases()) + list(start_cases_falsy()) + \
         list(start_cases_late_veto()) + list(start_cases_no_process()) + \
+        list(start_cases_retry_forever()) + \
         list(stop_cases()) + list(signal_cases())
 
 
@@ -401,7 +414,8 @@ def _strategy():
         "np": st.integers(0, 2),
         "request": st.sampled_from(['start', 'restart', 'daemon-start',
                                     'stop', 'rm', 'signal', 'kill']),
-        "signum": st.sampled_from(sorted(SIGS))})
+        "signum": st.sampled_from(sorted(SIGS))},
+        optional={"max_retry": st.sampled_from([-1, 1, 5])})
 
 
 def plan(tier, seed):
